@@ -154,6 +154,7 @@ class HKDFObj(StubObj):
 class AEADObj(StubObj):
     def __init__(self, key):
         self.key = key
+        self.f_key = key
 
     def m_encrypt(self, it, nonce, data, aad):
         if aad is None:
@@ -236,6 +237,9 @@ def install(env):
         return AEADObj(key)
 
     env.stub(ChaCha20Poly1305Reusable, mk_aead)
+    from cryptography.hazmat.primitives.ciphers.aead import ChaCha20Poly1305 as _CC
+
+    env.stub(_CC, mk_aead)
     env.crypto = {
         "seal": seal_term, "open": open_terms, "hkdf": hkdf_term, "DeriveFn": DeriveFn,
         "XPrivateKey": XPrivateKey, "EdPrivateKey": EdPrivateKey,
